@@ -1,6 +1,6 @@
 #!/usr/bin/env python3
 """C20 — configured limits are enforced and recover (OutboundBreaker, Throttle, Location capacity)."""
-import sys, os, json, subprocess, tempfile, time
+import sys, os, json, subprocess, tempfile, time, hashlib
 sys.path.insert(0, os.path.join(os.path.dirname(os.path.abspath(__file__)), "..", "lib"))
 from vlib import *
 import gen_c20 as G
@@ -9,9 +9,11 @@ from concurrent.futures import ThreadPoolExecutor
 GEN_LEAN = os.path.join(LEAN, "RulioModel", "Gen", "C20.lean")
 OVERLAY_SRC = os.path.join(HARNESS, "overlay", "c20_core_test.go")
 
-# Genuine defects of the unchanged tree found for this property (each is replayed below on every run).
-# Shape = known_findings.json entries; used until the entries are in that file.
-PROPOSED = [
+# Findings of this property. Tolerated = listed under `findings` in known_findings.json and not under `fixed`.
+# FORMER: the four defects repaired by corpus/C20-fix-{recovery,interval,throttle-pending}.patch. Their witnesses run on every
+# run: while an id is still listed (and not fixed) it is replayed as a known finding; once it is under `fixed` (or gone) the
+# witness is an ordinary case that has to behave, and its class is not tolerated among the generated cases any more.
+FORMER = [
     {"property": "C20", "id": "C20-breaker-fast-poll-never-recovers", "class": "breaker-recovery",
      "what": "OutboundBreaker.slide sets updated := now on every call but shifts whole ticks only: polled faster than interval/20 the breaker never admits again (limit 1 per 1 s polled every 10 ms: nothing admitted for 2.5 s)",
      "witness": {"kind": "breaker_seq", "limit": 1, "interval": 1_000_000_000, "gaps": [0] + [10_000_000] * 250}},
@@ -26,6 +28,9 @@ PROPOSED = [
      "witness": {"kind": "c20.throttle", "pendingLimit": 0, "disabled": True, "n": 2,
                  "evs": [{"ev": "sub", "tid": 0}, {"ev": "sub", "tid": 1}, {"ev": "sub", "tid": 0}, {"ev": "disable", "on": False},
                          {"ev": "spawn"}, {"ev": "sub", "tid": 2}]}},
+]
+# Genuine defects of the current tree that remain (shape = known_findings.json entries; used when the file has none for C20)
+PROPOSED = [
     {"property": "C20", "id": "C20-simplebreaker-disabled-open-runs-f-every-attempt", "class": "submit-unfaithful-breaker",
      "what": "SimpleBreaker.Do runs f when Closed||Disabled but reports Closed: a disabled, open SimpleBreaker makes one Throttle.Submit run the function once per attempt and still return ThrottleExhausted",
      "witness": {"kind": "c20.submit_loop", "attempts": 3, "st": [{"b": "simple", "closed": False, "disabled": True}] * 3}},
@@ -39,33 +44,68 @@ PROPOSED.append(RACE)
 
 # ------------------------------------------------------------------------------------------------ builds
 
+def harness_dir():
+    """the harness module the driver is built from: /verif/harness, or — when VERIF_REPO points at another tree — the private
+    copy that vlib.build_harness makes (its go.mod replaces github.com/Comcast/rulio with that tree). `go list` inside it
+    therefore names the very source directory the real-code binaries are compiled from."""
+    build_harness()
+    if os.path.realpath(REPO) != "/repo":
+        d = os.path.join(BUILD, "harness-" + hashlib.sha1(os.path.realpath(REPO).encode()).hexdigest()[:8])
+        if os.path.isdir(d):
+            return d
+    return HARNESS
+
+
+_core_dir = []
+
+def core_dir():
+    """directory of package github.com/Comcast/rulio/core as the harness module resolves it (None if that fails)"""
+    if not _core_dir:
+        hd = harness_dir()
+        if not os.path.exists(os.path.join(hd, "go.sum")):
+            shutil.copyfile(os.path.join(REPO, "go.sum"), os.path.join(hd, "go.sum"))
+        rc, lst = sh(["go", "list", "-f", "{{.Dir}}", "github.com/Comcast/rulio/core"], cwd=hd, env=GOENV, timeout=120)
+        d = lst.strip().split("\n")[-1] if rc == 0 else ""
+        _core_dir.append(d if os.path.isdir(d) else None)
+    return _core_dir[0]
+
+
 def extract():
-    """(1) regenerate Gen/C20.lean from the Go source. Returns (ok, text)."""
+    """(1) regenerate Gen/C20.lean from the Go source the harness is compiled against. Returns (ok, text)."""
     exe = os.path.join(BUILD, "extract_c20")
     os.makedirs(BUILD, exist_ok=True)
     shutil.copyfile(os.path.join(REPO, "go.sum"), os.path.join(HARNESS, "go.sum"))
     rc, txt = sh(["go", "build", "-o", exe, "./cmd/extract_c20"], cwd=HARNESS, env=GOENV, timeout=600)
     if rc != 0:
         return False, "extractor does not build: " + txt[-1500:]
-    rc, lst = sh(["go", "list", "-f", "{{.Dir}}", "github.com/Comcast/rulio/core"], cwd=HARNESS, env=GOENV, timeout=120)
-    core_dir = lst.strip().split("\n")[-1]
-    root = os.path.dirname(core_dir) if rc == 0 and os.path.isdir(core_dir) else REPO
+    cd = core_dir()
+    root = os.path.dirname(cd) if cd else REPO
+    if os.path.realpath(root) != os.path.realpath(REPO):
+        return False, "the harness module resolves github.com/Comcast/rulio to %s, not to the tree under check %s" % (root, REPO)
     rc, txt = sh([exe, root, GEN_LEAN], timeout=120)
-    return rc == 0, txt.strip()
+    return rc == 0, txt.strip() + " from " + os.path.realpath(root)
 
 
 def build_whitebox():
-    """go test -c of package core with the overlay that adds harness/overlay/c20_core_test.go (nothing written into /repo)"""
-    rc, lst = sh(["go", "list", "-f", "{{.Dir}}", "github.com/Comcast/rulio/core"], cwd=HARNESS, env=GOENV, timeout=120)
-    if rc != 0:
-        return None, lst
-    core_dir = lst.strip().split("\n")[-1]
+    """go test -c of package core with an overlay (nothing is written into the source tree) that adds
+    harness/overlay/c20_core_test.go and replaces core/breaker.go by a copy of ITSELF in which `time.Now()` reads the
+    virtual clock `c20Now()` of that test file: the real Do()/Status()/Summary()/slide() on exact clock readings"""
+    cd = core_dir()
+    if not cd:
+        return None, "go list github.com/Comcast/rulio/core failed"
+    src = open(os.path.join(cd, "breaker.go")).read()
+    n = src.count("time.Now()")
+    if n < 4 or "c20Now" in src:
+        return None, "core/breaker.go has %d occurrences of time.Now() (Do, Summary, Status, Reset, ProbeTTL expected)" % n
+    vb = os.path.join(BUILD, "c20_breaker_vclock.go")
+    with open(vb, "w") as fh:
+        fh.write(src.replace("time.Now()", "c20Now()"))
     ov = os.path.join(BUILD, "c20_overlay.json")
     with open(ov, "w") as fh:
-        json.dump({"Replace": {os.path.join(core_dir, "zz_verif_c20_test.go"): OVERLAY_SRC}}, fh)
+        json.dump({"Replace": {os.path.join(cd, "zz_verif_c20_test.go"): OVERLAY_SRC, os.path.join(cd, "breaker.go"): vb}}, fh)
     out = os.path.join(BUILD, "c20_core.test")
     rc, txt = sh(["go", "test", "-c", "-vet=off", "-tags", "verif verif_overlay", "-overlay", ov, "-o", out,
-                  "github.com/Comcast/rulio/core"], cwd=HARNESS, env=GOENV, timeout=900)
+                  "github.com/Comcast/rulio/core"], cwd=harness_dir(), env=GOENV, timeout=900)
     return (out if rc == 0 else None), txt
 
 
@@ -126,14 +166,30 @@ def window_violation(before, after, closed, limit, W):
     return None
 
 
-def timed_ambiguous(before, after, res, ticks):
-    """could the tick count of some slide differ between the clock readings compatible with the observation?"""
-    for i in range(1, len(before)):
-        lo, hi = before[i] - after[i - 1], after[i] - before[i - 1]
-        lo = max(lo, 0)
-        if min(lo // res, ticks) != min(hi // res, ticks):
-            return True
-    return False
+def seq_times(c):
+    """clock readings (ns from the start of the script) of a breaker_seq case"""
+    if "times" in c:
+        return c["times"]
+    out, t = [], 0
+    for g in c["gaps"]:
+        t += g
+        out.append(t)
+    return out
+
+
+def describe_seq(c, k=None):
+    """one line naming the arrival pattern of a breaker_seq case (for VIOLATION lines)"""
+    ts = seq_times(c)
+    ops = c.get("ops") or ["do"] * len(ts)
+    gaps = [b - a for a, b in zip(ts, ts[1:])]
+    res = c["interval"] // G.TICKS
+    polls = sum(1 for o in ops if o != "do")
+    txt = "limit %d per %d ns (tick %d ns), %d arrivals (%d Status/Summary polls) over %d ns" % (c["limit"], c["interval"], res, len(ts), polls, ts[-1] - ts[0] if ts else 0)
+    if gaps:
+        txt += ", gaps min/median/max %d/%d/%d ns" % (min(gaps), sorted(gaps)[len(gaps) // 2], max(gaps))
+    if k is not None and k < len(ts):
+        txt += "; arrival %d at t=%d ns" % (k, ts[k])
+    return txt
 
 
 def model_cap_ops(ops):
@@ -158,6 +214,12 @@ def model_cap_ops(ops):
 
 # ------------------------------------------------------------------------------------------------ main
 
+def nerr(r):
+    """error kind of a result: 'new' = NewOutboundBreaker refused the arguments"""
+    e = r.get("err") if isinstance(r, dict) else None
+    return e.split(":")[0] if isinstance(e, str) else e
+
+
 def replay(path):
     """./check C20 --replay <file>: re-run the recorded case on the real code and on the model, print both"""
     obj = json.load(open(path))
@@ -172,14 +234,11 @@ def replay(path):
     wb, _ = build_whitebox()
     if c["kind"] in ("slide", "breaker_seq"):
         i = run_whitebox(wb, [c])[0]
-        mc = dict(c, kind="c20." + c["kind"])
-        if c["kind"] == "breaker_seq":
-            mc["gaps"] = i.get("gaps_eff") or c["gaps"]
-        m = run_cases(mdl, [mc])[0]
-        same = all(i.get(k) == m.get(k) for k in ("closed", "counts", "err") if k in i or k in m)
+        m = run_cases(mdl, [dict(c, kind="c20." + c["kind"])])[0]
+        same = nerr(i) == nerr(m) and all(i.get(k) == m.get(k) for k in ("closed", "counts", "updated") if k in i or k in m)
     else:
         i = run_cases(drv, [c])[0]
-        m = run_cases(mdl, [c])[0] if c["kind"] in ("c20.throttle", "c20.submit_loop", "c20.capacity") else {}
+        m = run_cases(mdl, [c])[0] if c["kind"] in ("c20.throttle", "c20.submit_loop", "c20.capacity", "c20.breaker_new") else {}
         same = None
     log("what : " + obj.get("what", "")[:500])
     log("case : " + canon(c)[:1500])
@@ -195,7 +254,8 @@ def main():
         replay(sys.argv[sys.argv.index("--replay") + 1])
     ck = Check("C20")
     ck.cov["trusted_base"] = TRUSTED_BASE + [
-        "extractor harness/cmd/extract_c20 (go/ast, ~400 lines): the generated RulioModel/Gen/C20.lean is what the theorems are about",
+        "extractor harness/cmd/extract_c20 (go/ast, ~500 lines): the generated RulioModel/Gen/C20.lean is what the theorems are about",
+        "white-box binary: core/breaker.go is compiled with the single textual substitution time.Now() -> c20Now() (virtual clock of harness/overlay/c20_core_test.go)",
         "monotone clock: time.Now() readings taken under the breaker's mutex are non-decreasing (Go monotonic clock)",
         "sync.Mutex gives mutual exclusion (the interleaving model takes a locked section as one atomic step)",
     ]
@@ -217,6 +277,10 @@ def main():
     ck.cov["extracted"] = xtxt[-300:]
     if not ok:
         log("note: extraction failed (broken tie): " + xtxt[-400:])
+        # the model then keeps the committed definitions (lean/GenBaseline), not whatever an earlier run left behind
+        base = os.path.join(LEAN, "GenBaseline", "C20.lean.txt")
+        if os.path.exists(base) and open(base).read() != (open(GEN_LEAN).read() if os.path.exists(GEN_LEAN) else ""):
+            shutil.copyfile(base, GEN_LEAN)
 
     # (2) proofs
     pr = prove("C20", leanchecker=ck.thorough)
@@ -238,9 +302,17 @@ def main():
         ck.violation("white-box test binary does not build against /repo/core: " + wtxt[-800:], {"build_log": wtxt[-3000:]}, tag="build", no_input=True)
         ck.finish()
 
-    kf = known_findings("C20") or PROPOSED
+    listed = known_findings("C20")
+    repaired = fixed_finding_ids("C20")
+    former_ids = set(f["id"] for f in FORMER)
+    # tolerated: listed and not repaired (with no entry at all for C20 in the file: the remaining PROPOSED ones)
+    kf = [f for f in (listed or PROPOSED) if f["id"] not in repaired]
     known_classes = set(f["class"] for f in kf)
+    # witnesses of the former findings that are no longer tolerated: ordinary cases that have to behave
+    former_strict = [f for f in FORMER if f["id"] not in set(k["id"] for k in kf)]
     known_hits = {}
+    ck.cov["tolerated_classes"] = sorted(known_classes)
+    ck.cov["repaired_not_tolerated"] = sorted(f["id"] for f in former_strict)
 
     # ------------------------------------------------------------------ (4a) slide with explicit times, white box
     cases = [G.slide_case(rng) for _ in range(1500 * n_scale)]
@@ -249,83 +321,128 @@ def main():
     cases = [c for c in corpus_cases if c.get("kind") == "slide"] + cases
     impl = run_whitebox(wb, cases)
     model = model_seq(mdl, cases)
-    bad = 0
+    bad = refused_new = 0
     for c, i, m in zip(cases, impl, model):
         ck.count(c, nontrivial=any(c["counts"]))
         if "err" in i or "err" in m:
-            if i.get("err") == m.get("err") == "divzero":
+            if nerr(i) == nerr(m) == "new":
+                refused_new += 1
+                continue
+            if nerr(i) == nerr(m) == "divzero" and "breaker-divzero" in known_classes:
                 continue
             bad += 1
             if bad <= 3:
-                ck.violation("slide: real code and model disagree (error): impl=%s model=%s" % (canon(i)[:200], canon(m)[:200]),
-                             {"case": c, "impl": i, "model": m}, tag="slide")
+                if nerr(i) == "divzero":
+                    what = "NewOutboundBreaker(1, %d ns) was accepted and slide() panics: integer divide by zero (interval below breakerTicks ns)" % c["interval"]
+                else:
+                    what = "slide: real code and model disagree (error): impl=%s model=%s" % (canon(i)[:200], canon(m)[:200])
+                ck.violation(what, {"case": c, "impl": i, "model": m}, tag="slide")
             continue
-        if i["counts"] != m["counts"] or i["updated_is_now"] != m["updated_is_now"]:
+        if i["counts"] != m["counts"] or i["updated"] != m["updated"]:
             bad += 1
             if bad <= 3:
-                ck.violation("OutboundBreaker.slide differs from the model: counts impl=%s model=%s" % (i["counts"], m["counts"]),
+                ck.violation("OutboundBreaker.slide differs from the model (interval %d ns, %d ns after `updated`): counts impl=%s model=%s, updated (ns after the old value) impl=%s model=%s"
+                             % (c["interval"], c["gap"], i["counts"], m["counts"], i["updated"], m["updated"]),
                              {"case": c, "impl": i, "model": m}, tag="slide")
     dist["slide_cases"] = len(cases)
     dist["slide_disagree"] = bad
+    dist["slide_interval_refused"] = refused_new
     ck.sample(cases[0])
 
-    # ------------------------------------------------------------------ (4b) the real Do() on injected state, exact clock readings
-    cases = [c for c in corpus_cases if c.get("kind") == "breaker_seq"] + [G.breaker_seq_case(rng, ck.thorough) for _ in range(1500 * n_scale)]
+    # ------------------------------------------------------------------ (4b) the real Do()/Status()/Summary() on a virtual clock
+    wit = [dict(f["witness"], pattern="witness:" + f["id"]) for f in former_strict if f["witness"]["kind"] == "breaker_seq"]
+    cases = wit + [c for c in corpus_cases if c.get("kind") == "breaker_seq"] + [G.breaker_seq_case(rng, ck.thorough) for _ in range(1500 * n_scale)]
     impl = run_whitebox(wb, cases)
-    mcases = []
-    for c, i in zip(cases, impl):
-        mc = {"kind": "c20.breaker_seq", "limit": c["limit"], "interval": c["interval"], "gaps": i.get("gaps_eff") or c["gaps"]}
-        if "counts" in c:
-            mc["counts"] = c["counts"]
-        mcases.append(mc)
+    mcases = [dict({k: v for k, v in c.items() if k != "pattern"}, kind="c20.breaker_seq") for c in cases]
     model = run_cases(mdl, mcases)
     pat = {}
     bad = wbad = 0
-    rec_miss = 0
+    rec_miss = strict_miss = 0
     for c, i, m, mc in zip(cases, impl, model, mcases):
         ck.count(c)
-        pat[c.get("pattern", "corpus")] = pat.get(c.get("pattern", "corpus"), 0) + 1
+        pn = c.get("pattern", "corpus").split("+")[0]
+        pat[pn] = pat.get(pn, 0) + 1
         if "err" in i or "err" in m:
-            if i.get("err") == m.get("err"):
+            if nerr(i) == nerr(m):
                 continue
             bad += 1
             if bad <= 3:
-                ck.violation("OutboundBreaker.Do: real code and model disagree: impl=%s model=%s" % (canon(i)[:300], canon(m)[:300]),
-                             {"case": c, "model_case": mc, "impl": i, "model": m}, tag="do")
+                ck.violation("OutboundBreaker.Do: real code and model disagree: impl=%s model=%s (%s)" % (canon(i)[:300], canon(m)[:300], describe_seq(c)),
+                             {"case": c, "impl": i, "model": m}, tag="do")
             continue
-        # spec, rate clause (zero start only): the model follows the extracted comparisons, so a mutated source can make
+        # spec, rate clause (zero start only): the model follows the extracted comparisons, so a changed source can make
         # impl = model and both break the bound; the concrete sequence is then the failing input
         spec_bad = (not m["spec_window_ok"]) or m["spec_over_admits"]
         if spec_bad and i["closed"] == m["closed"]:
             wbad += 1
             if wbad <= 3:
                 k = (m["spec_over_admits"] or [0])[0]
-                ck.violation(("%sOutboundBreaker admitted more than limit=%d calls within one window of %d ns (real Do(), clock readings replayed exactly; call %d was admitted with %d admissions already inside the window)"
-                              % ("" if proof_broken else "INTERNAL (the theorem breaker_window_counts is proved about this model): ", c["limit"], m["W"], k, c["limit"])),
-                             {"case": c, "model_case": mc, "impl": i, "spec_over_admits": m["spec_over_admits"]}, tag="window")
+                ck.violation(("%sOutboundBreaker admitted more than limit=%d calls within one window of %d ns (real Do(), exact clock readings; arrival %d was admitted with %d admissions already inside the window): %s"
+                              % ("" if proof_broken else "INTERNAL (the theorem breaker_window_counts is proved about this model): ", c["limit"], m["W"], k, c["limit"], describe_seq(c, k))),
+                             {"case": c, "impl": i, "spec_over_admits": m["spec_over_admits"]}, tag="window")
             continue
-        if i["closed"] != m["closed"] or i["counts"] != m["counts"]:
+        if i["closed"] != m["closed"] or i["counts"] != m["counts"] or i["updated"] != m["updated"]:
             bad += 1
             if bad <= 3:
-                k = next((j for j in range(len(m["closed"])) if j >= len(i["closed"]) or i["closed"][j] != m["closed"][j] or i["counts"][j] != m["counts"][j]), 0)
-                ck.violation("OutboundBreaker.Do differs from the model at call %d of %d (clock readings replayed exactly): impl closed=%s counts=%s, model closed=%s counts=%s"
-                             % (k, len(m["closed"]), i["closed"][k:k + 1], i["counts"][k:k + 1], m["closed"][k:k + 1], m["counts"][k:k + 1]),
-                             {"case": c, "model_case": mc, "impl": i, "model": m, "first_difference": k}, tag="do")
+                k = next((j for j in range(len(m["closed"])) if j >= len(i["closed"]) or i["closed"][j] != m["closed"][j] or i["counts"][j] != m["counts"][j]
+                          or i["updated"][j] != m["updated"][j]), 0)
+                ck.violation("OutboundBreaker differs from the model at arrival %d of %d (exact clock readings): impl closed=%s counts=%s updated=%s, model closed=%s counts=%s updated=%s; %s"
+                             % (k, len(m["closed"]), i["closed"][k:k + 1], i["counts"][k:k + 1], i["updated"][k:k + 1], m["closed"][k:k + 1], m["counts"][k:k + 1], m["updated"][k:k + 1], describe_seq(c, k)),
+                             {"case": c, "impl": i, "model": m, "first_difference": k}, tag="do")
             continue
+        strict_miss += 1 if m["spec_strict_misses"] else 0
         if m["spec_recovery_misses"]:
-            # impl = model ≠ spec (recovery clause): must be the recorded class
+            # impl = model ≠ spec (recovery clause: theorems breaker_recovers / breaker_recovers_graded)
             rec_miss += 1
             if "breaker-recovery" in known_classes:
                 known_hits.setdefault("breaker-recovery", mc)
             else:
-                ck.violation("breaker refuses a call although fewer than limit admissions lie within the last window (call %d)" % m["spec_recovery_misses"][0],
-                             {"case": mc, "impl": i, "model": m}, tag="recovery")
+                k = m["spec_recovery_misses"][0]
+                ts = seq_times(c)
+                adm = [ts[j] for j in range(k) if i["closed"][j] and (c.get("ops") or ["do"] * len(ts))[j] == "do"]
+                ck.violation(("%sOutboundBreaker does not recover: the call at t=%d ns is refused although the last admission was at t=%s ns, %s ns earlier (window %d ns; %d of the %d arrivals are refused like that): %s"
+                              % ("" if proof_broken else "INTERNAL (the theorems breaker_recovers/_graded are proved about this model): ",
+                                 ts[k], adm[-1] if adm else "-", ts[k] - adm[-1] if adm else "-", m["W"], len(m["spec_recovery_misses"]), len(ts), describe_seq(c, k))),
+                             {"case": c, "impl": i, "refused_although_recovered": m["spec_recovery_misses"]}, tag="recovery")
     dist["do_cases"] = len(cases)
     dist["do_patterns"] = pat
     dist["do_disagree"] = bad
     dist["do_window_bound_broken"] = wbad
     dist["do_recovery_clause_missed"] = rec_miss
-    ck.sample({k: cases[-1][k] for k in ("limit", "interval", "gaps", "pattern")})
+    dist["do_cases_where_exact_window_reading_would_admit_earlier"] = strict_miss
+    ck.sample({k: (cases[-1][k] if k != "times" else cases[-1][k][:12]) for k in ("limit", "interval", "times", "pattern")})
+
+    # ------------------------------------------------------------------ (4b') NewOutboundBreaker / Adjust: what is refused
+    tiny = [{"kind": "c20.breaker_new", "limit": 1, "interval": f["witness"]["interval_ns"], "adjust": False, "pattern": "witness:" + f["id"]}
+            for f in former_strict if f["witness"]["kind"] == "c20.breaker_tiny"]
+    cases = tiny + [c for c in corpus_cases if c.get("kind") == "c20.breaker_new"] + \
+        [{"kind": "c20.breaker_new", "limit": 1, "interval": iv, "adjust": adj} for iv in (0, 1, 19, 20, 21, -1) for adj in (False, True)] + \
+        [G.new_case(rng) for _ in range(150 * n_scale)]
+    impl = run_cases(drv, cases)
+    model = run_cases(mdl, [{k: v for k, v in c.items() if k != "pattern"} for c in cases])
+    bad = nrej = 0
+    for c, i, m in zip(cases, impl, model):
+        ck.count(c)
+        nrej += 1 if m.get("rejected") else 0
+        what = None
+        if "err" in i or "err" in m:
+            what = "error: impl=%s model=%s" % (canon(i)[:200], canon(m)[:200])
+        elif i.get("do") in ("divzero", "panic"):
+            if not ("breaker-divzero" in known_classes and m.get("do") == i.get("do")):
+                what = "%s(limit %d, interval %d ns) is accepted and the next Do() panics: %s" % ("Adjust" if c["adjust"] else "NewOutboundBreaker", c["limit"], c["interval"], i.get("panic"))
+        elif i["rejected"] != m["rejected"]:
+            what = "%s(limit %d, interval %d ns): real code %s, model %s" % ("Adjust" if c["adjust"] else "NewOutboundBreaker", c["limit"], c["interval"],
+                                                                              "refuses" if i["rejected"] else "accepts", "refuses" if m["rejected"] else "accepts")
+        elif c["adjust"] and i["rejected"] and not (i.get("first") is True and i.get("second") is False):
+            what = "a refused Adjust(limit %d, interval %d ns) changed the breaker (1 per hour before: first Do %s, second Do %s)" % (c["limit"], c["interval"], i.get("first"), i.get("second"))
+        elif not i["rejected"] and i.get("do") != m.get("do"):
+            what = "Do() after %s(limit %d, interval %d ns): impl %s, model %s" % ("Adjust" if c["adjust"] else "NewOutboundBreaker", c["limit"], c["interval"], i.get("do"), m.get("do"))
+        if what:
+            bad += 1
+            ck.violation("OutboundBreaker construction: " + what, {"case": c, "impl": i, "model": m}, tag="new")
+    dist["new_cases"] = len(cases)
+    dist["new_refused"] = nrej
+    dist["new_disagree"] = bad
 
     # ------------------------------------------------------------------ (4c) wall clock: one caller, and concurrent callers
     def timed_round(scripts):
@@ -340,10 +457,17 @@ def main():
             if wv:
                 out.append(("window", r, wv)); continue
             if s["kind"] == "c20.breaker_timed":
-                if timed_ambiguous(r["before"], r["after"], resn, G.TICKS):
-                    out.append(("ambiguous", r, None)); continue
-                m = run_cases(mdl, [{"kind": "c20.breaker_seq", "limit": s["limit"], "interval": s["interval_ns"], "times": r["before"]}])[0]
-                out.append(("ok" if m.get("closed") == r["closed"] else "differs", r, m))
+                # the clock reading taken inside Do lies between the two brackets: run the model on the lower brackets, the upper
+                # brackets and the midpoints; equal to one of them = explained, the three disagreeing = no verdict from this run
+                mid = [(a + b) // 2 for a, b in zip(r["before"], r["after"])]
+                ms = run_cases(mdl, [{"kind": "c20.breaker_seq", "limit": s["limit"], "interval": s["interval_ns"], "times": ts} for ts in (r["before"], mid, r["after"])])
+                cl = [m.get("closed") for m in ms]
+                if r["closed"] in cl:
+                    out.append(("ok", r, None))
+                elif cl[0] != cl[1] or cl[1] != cl[2]:
+                    out.append(("ambiguous", r, None))
+                else:
+                    out.append(("differs", r, ms[1]))
             else:
                 span = max(r["after"]) - min(r["before"])
                 n_adm = sum(r["closed"])
@@ -383,12 +507,15 @@ def main():
     ck.sample({k: scripts[0][k] for k in ("limit", "interval_ns", "sleeps_us", "pattern")})
 
     # ------------------------------------------------------------------ (4d) throttle bookkeeping, forced schedules
-    cases = [c for c in corpus_cases if c.get("kind") == "c20.throttle"] + [G.throttle_case(rng) for _ in range(500 * n_scale)]
+    cases = [dict(f["witness"], pattern="witness:" + f["id"]) for f in former_strict if f["witness"]["kind"] == "c20.throttle"] + \
+        [c for c in corpus_cases if c.get("kind") == "c20.throttle"] + [G.throttle_case(rng) for _ in range(500 * n_scale)]
     impl = run_cases(drv, cases)
-    model = run_cases(mdl, cases)
+    model = run_cases(mdl, [{k: v for k, v in c.items() if k != "pattern"} for c in cases])
     bad = leaky = 0
+    tpat = {}
     for c, i, m in zip(cases, impl, model):
         ck.count(c)
+        tpat[c.get("pattern", "corpus").split(":")[0]] = tpat.get(c.get("pattern", "corpus").split(":")[0], 0) + 1
         if "err" in i or "err" in m or i["pcs"] != m["pcs"] or i["trace_pending"] != m["trace_pending"] or i["pending"] != m["pending"]:
             bad += 1
             if bad <= 3:
@@ -407,10 +534,16 @@ def main():
                 leaky += 1
                 known_hits.setdefault("throttle-disabled-leak", c)
             else:
-                ck.violation("Throttle.pending differs from the number of waiting submissions outside the recorded class", {"case": c, "impl": i, "model": m}, tag="throttle-pending")
+                k = next(j for j in range(len(m["trace_pending"])) if m["trace_pending"][j] != m["trace_waiting"][j])
+                ck.violation(("%sThrottle.pending does not match the submissions in flight: pendingLimit %d, %s, after event %d (%s) pending=%d with %d submission(s) waiting; at the end pending=%d with %d waiting, submitters %s (schedule: %s)"
+                              % ("" if proof_broken else "INTERNAL (theorem throttle_pending_exact is proved about this model): ", c["pendingLimit"],
+                                 "Disable(true) at the start" if c["disabled"] else "enabled at the start", k, canon(c["evs"][k]), i["trace_pending"][k], m["trace_waiting"][k],
+                                 i["pending"], i["waiting"], i["pcs"], canon(c["evs"])[:400])),
+                             {"case": c, "impl": i, "model": m}, tag="throttle-pending")
     dist["throttle_cases"] = len(cases)
     dist["throttle_disagree"] = bad
     dist["throttle_in_leak_class"] = leaky
+    dist["throttle_patterns"] = tpat
     ck.sample(cases[-1])
 
     # real goroutines
@@ -418,12 +551,13 @@ def main():
     for _ in range(6 * n_scale):
         stress.append({"kind": "c20.throttle_stress", "attempts": rng.choice([3, 10, 40]), "pendingLimit": rng.choice([0, 1, 3, 8]),
                        "pause_us": rng.choice([100, 500]), "limit": rng.choice([1, 2, 5]), "interval_ns": rng.choice([2, 10, 20]) * 1_000_000,
-                       "submitters": rng.choice([4, 12, 24]), "each": rng.choice([3, 8]), "hold_us": rng.choice([0, 100, 400])})
+                       "submitters": rng.choice([4, 12, 24]), "each": rng.choice([3, 8]), "hold_us": rng.choice([0, 100, 400]),
+                       "toggle": len(stress) % 2 == 0})
     # two hammer runs: many submitters released at once, short holds, so that many Submit calls sit between "read pending" and
     # "increment pending" at the same time (a check-then-act window there shows up as pending > pendingLimit + 1)
     for pl in (2, 1):
         stress.append({"kind": "c20.throttle_stress", "attempts": 3, "pendingLimit": pl, "pause_us": 50, "limit": 2, "interval_ns": 1_000_000,
-                       "submitters": 48, "each": 120 * n_scale, "hold_us": 30})
+                       "submitters": 48, "each": 120 * n_scale, "hold_us": 30, "toggle": pl == 1})
     for s, r in zip(stress, run_cases(drv, stress, jobs=3)):
         ck.count(s)
         probs = []
@@ -432,7 +566,7 @@ def main():
             if r["multi_run"]: probs.append("a submitted function ran more than once (%d submissions)" % r["multi_run"])
             if r["run_result_mismatch"]: probs.append("result does not match whether the function ran (%d)" % r["run_result_mismatch"])
             if r["max_pending"] > s["pendingLimit"] + 1: probs.append("Pending() reached %d > pendingLimit+1 = %d" % (r["max_pending"], s["pendingLimit"] + 1))
-            if r["final_pending"] != 0: probs.append("pending is %d after all submissions returned" % r["final_pending"])
+            if r["final_pending"] != 0: probs.append("pending is %d after all %d submissions returned (%d overflowed%s)" % (r["final_pending"], r["total"], r["overflow"], ", Disable toggled meanwhile" if s.get("toggle") else ""))
             if r["other"]: probs.append("unexpected Submit results")
         if probs:
             ck.violation("Throttle under real concurrency: " + "; ".join(probs), {"case": s, "impl": r}, tag="throttle-stress")
@@ -531,7 +665,7 @@ def main():
         cls = f["class"]
         if cls == "breaker-recovery":
             i = run_whitebox(wb, [w])[0]
-            m = run_cases(mdl, [{"kind": "c20.breaker_seq", "limit": w["limit"], "interval": w["interval"], "gaps": i.get("gaps_eff") or w["gaps"]}])[0]
+            m = run_cases(mdl, [dict(w, kind="c20.breaker_seq")])[0]
             if "err" not in i and m.get("spec_recovery_misses") and i["closed"] == m["closed"]:
                 ck.known_finding("%s: %s (replayed on the real Do(): %d of %d calls refused although the window holds fewer than limit admissions)" %
                                  (f["id"], f["what"], len(m["spec_recovery_misses"]), len(i["closed"])))
@@ -557,17 +691,30 @@ def main():
                 ck.note("known finding %s did not reproduce (impl=%s)" % (f["id"], canon(i)[:200]))
         elif cls == "capacity-race":
             pass  # handled below
-    # wall-clock confirmation of the recovery defect (limit 1 per 400 ms polled every 2 ms for 1 s, then a pause)
-    if "breaker-recovery" in known_classes:
-        s = {"kind": "c20.breaker_timed", "limit": 1, "interval_ns": 400_000_000, "sleeps_us": [0] + [2000] * 400 + [450_000]}
-        r = run_cases(drv, [s])[0]
-        if "err" not in r:
-            late = [j for j in range(1, len(r["closed"]) - 1) if r["before"][j] > r["after"][0] + 440_000_000]
-            refused_late = [j for j in late if not r["closed"][j]]
-            dist["wall_clock_fast_poll"] = {"polls": len(r["closed"]), "polls_later_than_1.1_interval": len(late), "refused": len(refused_late),
-                                            "admitted_after_pause": r["closed"][-1], "span_ms": r["after"][-2] // 1_000_000}
-            if late and len(refused_late) == len(late) and r["closed"][-1]:
-                log("note: wall-clock replay: polled every 2 ms, a 1/400 ms breaker refused all %d polls later than 1.1 intervals after its admission, and admitted after a 450 ms pause" % len(late))
+    # wall clock, recovery while polled faster than a tick: limit 1 per 200 ms (tick 10 ms) polled every 2 ms for 0.5 s. Every poll
+    # later than interval + one tick + 15 ms of scheduling slack after the admission must find the breaker closed again at least
+    # once (theorem breaker_recovery_bound); an apparent failure is re-run three times
+    def fast_poll_round():
+        s_ = {"kind": "c20.breaker_timed", "limit": 1, "interval_ns": 200_000_000, "sleeps_us": [0] + [2000] * 250}
+        r_ = run_cases(drv, [s_])[0]
+        if "err" in r_:
+            return s_, r_, None
+        late = [j for j in range(1, len(r_["closed"])) if r_["before"][j] > r_["after"][0] + 225_000_000]
+        return s_, r_, {"polls": len(r_["closed"]), "polls_later_than_interval_plus_25ms": len(late), "admitted_again": sum(r_["closed"][1:]),
+                        "first_readmission_ms": next((r_["before"][j] // 1_000_000 for j in range(1, len(r_["closed"])) if r_["closed"][j]), None),
+                        "stuck": bool(late) and not any(r_["closed"][1:late[-1] + 1])}
+    s_, r_, fp = fast_poll_round()
+    ck.count(s_)
+    dist["wall_clock_fast_poll"] = fp
+    if fp and fp["stuck"]:
+        if "breaker-recovery" in known_classes:
+            log("note: wall-clock replay: polled every 2 ms, a 1/200 ms breaker refused all %d polls later than interval + 25 ms after its admission" % fp["polls_later_than_interval_plus_25ms"])
+        else:
+            again = [fast_poll_round()[2] for _ in range(3)]
+            if all(a and a["stuck"] for a in again):
+                ck.violation("OutboundBreaker under the wall clock never recovers while polled: limit 1 per 200 ms, one admission, then polled every 2 ms (faster than the 10 ms tick) for %d ms: all %d polls refused, %d of them later than interval + 25 ms after the admission"
+                             % (r_["after"][-1] // 1_000_000, fp["polls"] - 1, fp["polls_later_than_interval_plus_25ms"]),
+                             {"case": s_, "observed": {k: r_[k][:60] for k in ("before", "after", "closed")}, "reruns": again}, tag="timed-recovery")
 
     # rounding of the window (theorem breaker_window_rounding_witness): cosmetic, reported as a note
     r = run_whitebox(wb, [{"kind": "slide", "interval": 39, "counts": [1] + [0] * 19, "gap": 20}])[0]
@@ -626,10 +773,12 @@ def main():
                              {"case": {kk: (v if kk != "ops" else v[: k + 1]) for kk, v in c.items()}, "impl": io, "model": mo}, tag="capacity-action")
                 break
 
-    ck.cov["rule"] = ("breaker: 20-bucket states x gaps on/around every multiple of a tick (explicit-time slide, white box); call sequences through the real Do() "
-                      "with back-dated `updated` and the exact clock readings read back (patterns: burst, faster than a tick, whole ticks, lossy, pauses around one window, "
-                      "boundaries, mixed; fresh and arbitrary start states); wall-clock scripts and concurrent callers checked against the model/the window bound with brackets; "
-                      "throttle: forced schedules of <= 8 submitters with Disable events, stress with real goroutines; retry loop against real Outbound/Simple/Combo breakers; "
+    ck.cov["rule"] = ("breaker: 20-bucket states x gaps on/around every multiple of a tick (explicit-time slide, white box); sequences of Do/Status/Summary "
+                      "through the real code on a virtual clock (exact clock readings; resolutions 1 ns .. 50 ms; patterns: burst, faster than a tick, whole ticks, "
+                      "lossy, pauses around one window, boundaries, mixed, fill-then-poll faster / slower than a tick for more than a window, Status polls, sub-tick admissions; "
+                      "fresh and arbitrary start states); NewOutboundBreaker/Adjust with limits and intervals around the refused region; wall-clock scripts and concurrent "
+                      "callers checked against the model/the window bound with brackets, wall-clock recovery under 2 ms polling; throttle: forced schedules of <= 8 submitters "
+                      "with Disable toggles around overflow, stress with real goroutines; retry loop against real Outbound/Simple/Combo breakers; "
                       "capacity: add/remove histories over <= 7 ids around MaxFacts in {-1..5}, both states; distinct by canonical JSON")
     dist["failures_by_kind"] = seen
     ck.cov["distribution"] = dist
